@@ -7,11 +7,12 @@
   `mayAggressiveLockingLastLockedKeysExpire`), so the model can be replayed next to the real code line by line
   (Driver/C06Agg.lean, harness/c06agg).
 
-  The model is of the code that exists, not of the intention: it contains the known leak (a key of
-  lastRetryUnnecessaryLocks that is re-requested with LockOnlyIfExists and answered "not found" ends in no set while the
-  store keeps the lock of the previous attempt) and its sibling (the re-request fails with write conflict / key exists:
-  "only 1 key and lock fails, no need to do pessimistic rollback").  Proofs/AggLock.lean proves the no-leak invariant
-  outside those situations and refutes it inside.
+  The model is of the code that exists, not of the intention.  It follows the REPAIRED lockKeys: the entry that
+  filterAggressiveLockedKeys takes out of lastRetryUnnecessaryLocks for a key that is requested again (`relockedEntries`) is
+  put back when the call ends without recording the key in currentLockedKeys and without rolling it back — the request
+  succeeded with LockOnlyIfExists and "not found" (the key is skipped), or the single key failed with write conflict / key
+  exists ("no need to do pessimistic rollback").  Before the repair the entry was dropped and the store kept the lock of the
+  previous attempt (known findings C06-aggressive-lock-only-if-exists-leak, C06-aggressive-relock-key-exists-leak).
 
   Keys are `Nat` ids (the harness maps id n to the byte key "k%02d", so the order of ids is the byte order of keys).
 
@@ -333,9 +334,22 @@ def takeOut (s : State) (k : Key) : State := { s with lastRetry := eraseE s.last
 def skipDecision (s : State) (e : Entry) (i : LockIn) : Option Entry :=
   if !s.aAssigned || s.aLastPrimary == s.aPrimary then trySkip e i.o.rv i.o.ce else none
 
+/-- the request for the one key `k` whose entry `e` filterAggressiveLockedKeys took out of lastRetryUnnecessaryLocks
+    (`relockedEntries`): when the call ends without recording the key in currentLockedKeys and without rolling it back —
+    success with the key skipped (LockOnlyIfExists, not found), or write conflict / key exists for the single key — the
+    entry is put back, as it was recorded in the previous attempt -/
+def lockResend (s : State) (i : LockIn) (k : Key) (al : Bool) (e : Entry) : State :=
+  match i.err with
+  | some er =>
+    if needRollback [k] er then lockSend s i [k] al
+    else { lockSend s i [k] al with lastRetry := upsertE (lockSend s i [k] al).lastRetry e }
+  | none =>
+    if skipKey i k then { lockSend s i [k] al with lastRetry := upsertE (lockSend s i [k] al).lastRetry e }
+    else lockSend s i [k] al
+
 /-- the key could be skipped; it is, unless the locks of the previous attempt may have expired -/
-def aggSkip (s : State) (i : LockIn) (k : Key) (al : Bool) (e' : Entry) : State :=
-  if i.mayExpire then lockSend (takeOut s k) i [k] al
+def aggSkip (s : State) (i : LockIn) (k : Key) (al : Bool) (e e' : Entry) : State :=
+  if i.mayExpire then lockResend (takeOut s k) i k al e
   else { takeOut s k with current := upsertE s.current e' }
 
 /-- the key is in lastRetryUnnecessaryLocks -/
@@ -343,8 +357,8 @@ def lockAggFound (s : State) (i : LockIn) (k : Key) (al : Bool) (e : Entry) : St
   if i.fu < e.lwc then { s with res := .errAggSanity }
   else
     match skipDecision s e i with
-    | some e' => aggSkip s i k al e'
-    | none => lockSend (takeOut s k) i [k] al
+    | some e' => aggSkip s i k al e e'
+    | none => lockResend (takeOut s k) i k al e
 
 /-- filterAggressiveLockedKeys for the one key of the call, then the request if it is still needed -/
 def lockAgg (s : State) (i : LockIn) (k : Key) (al : Bool) : State :=
@@ -416,12 +430,11 @@ def relock (s : State) (i : LockIn) : Option Key :=
   | [k] => if s.inAgg && (findE s.lastRetry k).isSome then some k else none
   | _ => none
 
-/-- THE EXCLUDED SITUATION of the partial theorems: a LockKeys call inside aggressive locking for a key of
-    lastRetryUnnecessaryLocks whose request is answered so that lockKeys neither registers the key in
-    currentLockedKeys nor rolls it back — (a) success with LockOnlyIfExists and "not found" (the key is skipped),
-    (b) write conflict / key exists for the single key ("no need to do pessimistic rollback").
-    (If no request is sent the answer fields are empty by convention and the call is not excluded.) -/
-def excludedLock (s : State) (i : LockIn) : Bool :=
+/-- the situation in which the repaired lockKeys puts the entry back (and in which the code leaked before the repair): a
+    LockKeys call inside aggressive locking for a key of lastRetryUnnecessaryLocks whose request is answered so that
+    lockKeys neither registers the key in currentLockedKeys nor rolls it back — (a) success with LockOnlyIfExists and
+    "not found" (the key is skipped), (b) write conflict / key exists for the single key.  Only used for statistics. -/
+def relockFallsThrough (s : State) (i : LockIn) : Bool :=
   match relock s i with
   | some k =>
     (match i.err with
@@ -435,11 +448,11 @@ def excludedLock (s : State) (i : LockIn) : Bool :=
 def endOk (s : State) : Bool := !(s.inAgg && !s.current.isEmpty)
 
 /-- what the partial theorems require of one op in the state it is applied to: the store's contract for the answers of a
-    lock call, no lock call in the excluded situation, no Commit / Rollback inside an aggressive-locking stage that
-    holds keys (which the code answers with an error and a closed transaction) -/
+    lock call, no Commit / Rollback inside an aggressive-locking stage that holds keys (which the code answers with an
+    error and a closed transaction) -/
 def okStep (s : State) (op : Op) : Bool :=
   match op with
-  | .lock i => wfLock i && !excludedLock s i
+  | .lock i => wfLock i
   | .rollback => endOk s
   | .commit => endOk s
   | _ => true
